@@ -630,6 +630,9 @@ def _str_method(I, o, name):
         return format_template(I, o, a, k)
 
     def split(I, a, k):
+        if hasattr(o, "addr") and [I.force(x) for x in a] == ["."]:
+            from contracts.c18 import octet, dec
+            return [Sym(dec(octet(o.addr, i)), "str") for i in range(4)]     # assumed: dotted quad = four decimal octets
         if _allc(a):
             return o.split(*[I.force(x) for x in a])
         raise OutsideSubset("split on a symbolic string")
